@@ -45,6 +45,8 @@ const (
 	idleNone = iota
 	idleIntr
 	idleIntrCleared
+	idleAsyncIntr        // the watchdog goroutine interrupts while the runtime is idle
+	idleAsyncIntrCleared // ... and the owner calls ClearInterrupt before the next call
 )
 
 type callOutcome struct {
@@ -66,8 +68,9 @@ type callOutcome struct {
 }
 
 type faultsim struct {
-	prop string
-	tier string
+	prop  string
+	tier  string
+	async bool // interrupts are (also) raised by real second goroutines (C15; meaningful under -race)
 }
 
 func (e *faultsim) registerNatives(h *Host, bodies []genBody) {
@@ -378,6 +381,9 @@ func (e *faultsim) Run(t *core.Tape, want bool) *core.Result {
 	var hist []histCall
 	for i := 0; i < ncalls; i++ {
 		c := histCall{Kind: W.Draw(nCallKinds), Body: W.Draw(nb)}
+		if e.prop == "C15" && !callDrains(c.Kind) {
+			c.Kind = c.Kind % (KExportFuncNoErr + 1) // interrupts are delivered to script-running entry points only
+		}
 		if !callDrains(c.Kind) && bodies[c.Body].UsesJob {
 			c.Kind = KRunProgram
 		}
@@ -394,10 +400,15 @@ func (e *faultsim) Run(t *core.Tape, want bool) *core.Result {
 		sb.WriteString("// setup (call 0), then history:\n")
 		for i, c := range hist {
 			fmt.Fprintf(&sb, "//   call#%d %s %s()", i, callKindNames[c.Kind], allBodies[c.Body].Name)
-			if idle[i] == idleIntr {
+			switch idle[i] {
+			case idleIntr:
 				sb.WriteString("   [Interrupt() while idle before this call]")
-			} else if idle[i] == idleIntrCleared {
+			case idleIntrCleared:
 				sb.WriteString("   [Interrupt() then ClearInterrupt() while idle before this call]")
+			case idleAsyncIntr:
+				sb.WriteString("   [Interrupt() from the watchdog goroutine while idle before this call]")
+			case idleAsyncIntrCleared:
+				sb.WriteString("   [Interrupt() from the watchdog goroutine, then ClearInterrupt(), while idle before this call]")
 			}
 			if f := plan[i]; f != nil {
 				fmt.Fprintf(&sb, "   FAULT %s", f)
@@ -427,6 +438,10 @@ func (e *faultsim) Run(t *core.Tape, want bool) *core.Result {
 				panic(x)
 			}
 		}()
+		if e.async {
+			h.startWatchdogs()
+			defer h.stopWatchdogs()
+		}
 		e.registerNatives(h, allBodies)
 		h.rt.Set("NR0", func() goja.Value {
 			p, _ := h.compile("nested", "canaryNested()")
@@ -452,6 +467,11 @@ func (e *faultsim) Run(t *core.Tape, want bool) *core.Result {
 				h.intrVal = &intrPayload{id: -i - 1}
 				h.rt.Interrupt(h.intrVal)
 				if idle[i] == idleIntrCleared {
+					h.rt.ClearInterrupt()
+				}
+			case idleAsyncIntr, idleAsyncIntrCleared:
+				h.wd[0].release()
+				if idle[i] == idleAsyncIntrCleared {
 					h.rt.ClearInterrupt()
 				}
 			}
@@ -495,7 +515,7 @@ func (e *faultsim) Run(t *core.Tape, want bool) *core.Result {
 	var kinds []int
 	switch e.prop {
 	case "C15":
-		kinds = []int{FIntr, FTickIntr, FTickIntr, FTickIntr}
+		kinds = []int{FIntr, FTickIntr, FAsyncIntr, FAsyncIntr, FAsyncIntr}
 	default:
 		// swarm: a random non-empty subset of kinds per run
 		all := []int{FThrowPrim, FThrowErr, FThrowExc, FGoErr, FIntr, FTickIntr, FDepth, FForeign}
@@ -519,6 +539,9 @@ func (e *faultsim) Run(t *core.Tape, want bool) *core.Result {
 		// interrupt-while-idle scenarios (C15, C03)
 		if callDrains(hist[ci].Kind) && S.Draw(12) == 11 {
 			idle[ci] = idleIntr + S.Draw(2)
+			if e.async && S.Draw(2) == 1 {
+				idle[ci] += 2
+			}
 			continue
 		}
 		k := kinds[S.Draw(len(kinds))]
@@ -530,11 +553,14 @@ func (e *faultsim) Run(t *core.Tape, want bool) *core.Result {
 		switch f.Kind {
 		case FDepth:
 			f.Limit = S.Draw(65)
-		case FTickIntr:
+		case FTickIntr, FAsyncIntr:
 			if cf[ci].ticks == 0 {
 				continue
 			}
 			f.At = int64(S.Draw(int(cf[ci].ticks)))
+			if f.Kind == FAsyncIntr && S.Draw(6) == 5 {
+				f.Limit = 1 // two watchdogs, one right after the other: the error must carry the last value
+			}
 		default:
 			if cf[ci].probes == 0 {
 				continue
@@ -624,6 +650,11 @@ func (e *faultsim) Run(t *core.Tape, want bool) *core.Result {
 			res.Count("fault.idle-intr", 1)
 		case idle[i] == idleIntrCleared:
 			res.Count("fault.idle-intr-then-clear", 1)
+		case idle[i] == idleAsyncIntr:
+			uncatchable, wantIntr = true, 7000
+			res.Count("fault.idle-async-intr", 1)
+		case idle[i] == idleAsyncIntrCleared:
+			res.Count("fault.idle-async-intr-then-clear", 1)
 		case f != nil && f.Kind == FDepth:
 			var so *goja.StackOverflowError
 			if errors.As(o.errObj, &so) {
